@@ -24,8 +24,7 @@ class HistoryProp(Prop):
     modes = ["wrapper"]
 
     def header(self, rng, tier, index):
-        hz = draw_hazards(rng, tier) if rng.random() < 0.4 else {}
-        hz.pop("diffish", None) if rng.random() < 0.5 else None
+        hz = self.draw_hazards(rng, tier)
         n_sessions = rng.choice([1, 2, 2, 3])
         nfam = 1 if tier == "quick" and rng.random() < 0.6 else rng.choice([1, 2, 2, 3] if tier != "quick" else [2])
         fams = [rng.choice(self.families) for _ in range(nfam)]
@@ -33,7 +32,7 @@ class HistoryProp(Prop):
         if os.environ.get("GAISIM_FAMILIES"):
             fams = os.environ["GAISIM_FAMILIES"].split(",")
         cfg = {"hazards": hz, "families": fams, "n_files": rng.randint(1, 3), "max_lines": 60,
-               "human_pre_ckpt": True}
+               "human_pre_ckpt": True, "gates": self.gates()}
         idg = gen.IdGen()
         files = gen.initial_files(rng, idg, cfg["n_files"], 10, hz)
         if not any(files.values()):
@@ -41,6 +40,24 @@ class HistoryProp(Prop):
         mode = rng.choice(self.modes)
         return {"world": {"mode": mode}, "sessions": ["s%d" % (k + 1) for k in range(n_sessions)],
                 "cfg": cfg, "init": {"files": files}, "next_id": idg.next_id}
+
+    def gates(self):
+        import os
+        if os.environ.get("GAISIM_GATES") is not None:
+            return [x for x in os.environ["GAISIM_GATES"].split(",") if x]
+        from ..runner import load_known
+        return sorted({kf["generator_gate"] for kf in load_known().get("findings", [])
+                       if kf.get("generator_gate")})
+
+    def draw_hazards(self, rng, tier):
+        # C02's quantifier is over graphs, ranges and positions, not over file-content shapes
+        # (those belong to C01/C05); keep only indentation and multibyte text
+        hz = {}
+        if rng.random() < 0.3:
+            hz["indent"] = True
+        if rng.random() < 0.2:
+            hz["multibyte"] = True
+        return hz
 
     def ops(self, rng, ex, cfg):
         g = hist.G(rng, ex, cfg)
@@ -90,6 +107,8 @@ class C02(HistoryProp):
                 return {"monitor": "checkpoint", "class": "checkpoint_failed",
                         "detail": {"codes": res.get("codes"), "err": res.get("err")}}
             return None
+        if op.get("relax") == "one_sided":
+            ex.gen_state["one_sided"] = True
         if op["op"] != "git":
             return None
         repo = ex.repo(op)
@@ -110,7 +129,8 @@ class C02(HistoryProp):
             return None
         if in_progress(ex.w, repo):
             return None
-        return check_blame(ex, repo, ex.sessions, one_sided=not self.two_sided)
+        return check_blame(ex, repo, ex.sessions,
+                           one_sided=(not self.two_sided) or ex.gen_state.get("one_sided", False))
 
     def final(self, ex, cfg):
         repo = ex.repos["r0"]
@@ -118,7 +138,8 @@ class C02(HistoryProp):
             return None
         notes = Notes(ex.w, repo)
         for name, sha in branch_tips(ex.w, repo):
-            v = check_blame(ex, repo, ex.sessions, rev=sha, one_sided=not self.two_sided, notes=notes, gitai=False)
+            v = check_blame(ex, repo, ex.sessions, rev=sha, notes=notes, gitai=False,
+                            one_sided=(not self.two_sided) or ex.gen_state.get("one_sided", False))
             if v:
                 v["detail"]["branch"] = name
                 return v
